@@ -18,8 +18,9 @@ Print Assumptions c05_never_panics.
    pointers, nested and embedded structs element by element, absent fields carry their default or stay zero, no
    required field is absent, options= and range= hold.  For every fuel, every document and every type in `wfx`:
    options=/range= declared only where the code consults them (opts_okb: not on Duration without `string`, not on
-   containers, no range= on bool/string/float), embedded fields are structs, members of an OPTIONAL embedded struct
-   are named and declare no default. *)
+   containers, no range= on bool/string/float; default_okb: a default inside its own options=/range=), embedded
+   fields are structs, members of an OPTIONAL embedded struct are named and declare no default and no optional=dep.
+   Covers optional=dep/!dep (resolved flag) and slices given as a string holding a JSON array. *)
 Theorem c05_exact : forall n t d v, wfx t = true -> unmarshal n t d = Ok v -> agrees t d v = true.
 Proof. exact exact. Qed.
 Print Assumptions c05_exact.
@@ -38,12 +39,12 @@ Print Assumptions c05_exact_everywhere.
    processFieldPrimitiveWithJSONNumber.  No wrap, no truncation: the result denotes the token's integer. *)
 Theorem c05_exact_scalars :
   (forall k s fi v, convert_set k s fi = Ok v ->
-     leaf_agrees k (match fi with Some i => JNum s i | None => JStr s end) v = true) /\
+     leaf_agrees k (match fi with Some i => JNum s i | None => JStr s None end) v = true) /\
   (forall t o raw fi w, json_number t o raw fi = Ok w -> agrees t (JNum raw fi) w = true) /\
   (forall w z raw fi, leaf_agrees (KInt w) (JNum raw fi) (VInt z) = true -> parse_signed raw = Some z /\ fits_int w z = true) /\
   (forall w z raw fi, leaf_agrees (KUint w) (JNum raw fi) (VInt z) = true -> parse_signed raw = Some z /\ fits_uint w z = true).
 Proof.
-  split; [exact convert_set_exact|]. split; [intros; eapply json_number_exact; eauto|]. split.
+  split; [exact (convert_set_exact None)|]. split; [intros; eapply json_number_exact; eauto|]. split.
   - intros w z raw fi H. simpl in H. destruct (parse_signed raw); [|discriminate]. apply andb_true_iff in H as [H1 H2].
     apply Z.eqb_eq in H1. subst. auto.
   - intros w z raw fi H. simpl in H. destruct (parse_signed raw); [|discriminate]. apply andb_true_iff in H as [H1 H2].
@@ -51,11 +52,12 @@ Proof.
 Qed.
 Print Assumptions c05_exact_scalars.
 
-(* a required field (no default, not optional; scalar, pointer, slice, MAP, or struct with a required member)
-   that is absent makes the whole struct fail *)
-Theorem c05_required : forall n fs m i f,
+(* a required field (no default, not optional -- after optional=dep resolution --; scalar, pointer, slice, MAP, or
+   struct with a required member) that is absent makes the whole struct fail *)
+Theorem c05_required : forall n fs m i f o',
   nth_error fs i = Some f -> f_anon f = false ->
-  olookup (f_key f) m = None -> o_default (f_opts f) = None -> o_optional (f_opts f) = false ->
+  olookup (f_key f) m = None -> resolve_opts (f_opts f) (f_key f) m = Ok o' ->
+  o_default (f_opts f) = None -> o_optional o' = false ->
   required_kind (f_ty f) ->
   forall v, unm_struct n fs m <> Ok v.
 Proof. exact struct_required. Qed.
@@ -75,11 +77,12 @@ Theorem c05_default : forall n fs m vs i f dv w,
 Proof. exact struct_default. Qed.
 Print Assumptions c05_default.
 
-(* an optional field that is absent (or null) stays zero: nil pointer/slice/map, 0, "", false, zero struct *)
-Theorem c05_optional_zero : forall n fs m vs i f w,
+(* an optional field (resolved flag) that is absent (or null) stays zero: nil pointer/slice/map, 0, "", false, zero struct *)
+Theorem c05_optional_zero : forall n fs m vs i f w o',
   unm_struct n fs m = Ok (VStruct vs) ->
   nth_error fs i = Some f -> nth_error vs i = Some w -> f_anon f = false ->
-  o_default (f_opts f) = None -> o_optional (f_opts f) = true ->
+  resolve_opts (f_opts f) (f_key f) m = Ok o' ->
+  o_default (f_opts f) = None -> o_optional o' = true ->
   olookup (f_key f) m = None \/ olookup (f_key f) m = Some JNull ->
   w = zero_val (f_ty f).
 Proof. exact struct_optional_zero. Qed.
@@ -87,10 +90,58 @@ Print Assumptions c05_optional_zero.
 
 (* ... and leaving out every field of an all-optional struct is accepted, with the zero struct as result *)
 Theorem c05_optional_succeeds : forall n fs m,
-  (forall f, In f fs -> f_anon f = false /\ o_optional (f_opts f) = true /\ o_default (f_opts f) = None /\ olookup (f_key f) m = None) ->
+  (forall f, In f fs -> f_anon f = false /\ o_optional (f_opts f) = true /\ o_dep (f_opts f) = None /\
+                        o_default (f_opts f) = None /\ olookup (f_key f) m = None) ->
   unm_struct (S (S n)) fs m = Ok (VStruct (map (fun f => zero_val (f_ty f)) fs)).
 Proof. exact optional_succeeds. Qed.
 Print Assumptions c05_optional_succeeds.
+
+(* optional=dep / optional=!dep (fieldOptions.toOptionsWithContext, repaired by 4c6e8a8).
+   (1) the resolved options differ from the declared ones in the optional flag only -- default, options=, range=,
+       string survive, so c05_options_enforced / c05_range_enforced / c05_default / c05_exact apply unchanged;
+   (2) optional=dep: both keys or neither are present, and the field is optional iff dep is absent;
+       optional=!dep: exactly one of the two is present, and the field is optional iff dep is present;
+   (3) a mismatch (one of dep / the field without the other; resp. both or neither) makes the struct fail. *)
+Theorem c05_optional_dep : forall o k m o', resolve_opts o k m = Ok o' ->
+  (o_default o' = o_default o /\ o_options o' = o_options o /\ o_range o' = o_range o /\ o_string o' = o_string o) /\
+  (forall dep, o_optional o = true -> o_dep o = Some (false, dep) ->
+     has_key dep m = has_key k m /\ o_optional o' = negb (has_key dep m)) /\
+  (forall dep, o_optional o = true -> o_dep o = Some (true, dep) ->
+     has_key dep m = negb (has_key k m) /\ o_optional o' = has_key dep m) /\
+  ((o_optional o = false \/ o_dep o = None) -> o' = o).
+Proof.
+  intros o k m o' H. destruct (resolve_keeps _ _ _ _ H) as [E0 [E1 [E2 [E3 _]]]].
+  destruct (resolve_semantics _ _ _ _ H) as [_ [N1 [N2 [P1 P2]]]].
+  split; [auto|]. split; [exact P1|]. split; [exact P2|]. intros [E|E]; [apply N1; exact E|].
+  destruct (o_optional o) eqn:Op; [apply N2; auto | apply N1; reflexivity].
+Qed.
+Print Assumptions c05_optional_dep.
+
+Theorem c05_optional_dep_mismatch : forall n fs m i f,
+  nth_error fs i = Some f -> f_anon f = false -> o_optional (f_opts f) = true ->
+  (forall dep, o_dep (f_opts f) = Some (false, dep) -> has_key dep m <> has_key (f_key f) m) ->
+  (forall dep, o_dep (f_opts f) = Some (true, dep) -> has_key dep m = has_key (f_key f) m) ->
+  o_dep (f_opts f) <> None ->
+  forall v, unm_struct n fs m <> Ok v.
+Proof.
+  intros n fs m i f Hi Ha Ho H1 H2 Hd. destruct (resolve_opts (f_opts f) (f_key f) m) as [o'|e|] eqn:R.
+  - exfalso. unfold resolve_opts in R. rewrite Ho in R. destruct (o_dep (f_opts f)) as [[[] dep]|]; [| |contradiction].
+    + destruct (String.eqb dep ""); [discriminate|]. rewrite (H2 dep eq_refl), eqb_reflx in R. discriminate.
+    + destruct (Bool.eqb (has_key dep m) (has_key (f_key f) m)) eqn:B; [|discriminate]. apply eqb_prop in B. exact (H1 dep eq_refl B).
+  - eapply struct_dep_mismatch; eauto.
+  - exfalso. unfold resolve_opts in R. repeat (match type of R with context [match ?x with _ => _ end] => destruct x end); discriminate.
+Qed.
+Print Assumptions c05_optional_dep_mismatch.
+
+(* the repaired defect D13 as an example: int `optional=b,range=[1:5]` <- {"v":7,"b":1} is rejected, 3 is accepted *)
+Example c05_optional_dep_range_example :
+  let t := Struct [mkfield "v" (mkopts true None [] (Some (mkrange (Some 1) true (Some 5) true)) false (Some (false, "b"))) false (Prim (KInt W64));
+                   mkfield "b" (mkopts true None [] None false None) false (Prim (KInt W64))]%string in
+  (exists e, unmarshal 6 t (JObj [("v", JNum "7" (mkfi true true true)); ("b", JNum "1" (mkfi true true true))]%string) = Err e) /\
+  unmarshal 6 t (JObj [("v", JNum "3" (mkfi true true true)); ("b", JNum "1" (mkfi true true true))]%string) = Ok (VStruct [VInt 3; VInt 1]) /\
+  unmarshal 6 t (JObj []) = Ok (VStruct [VInt 0; VInt 0]) /\
+  (exists e, unmarshal 6 t (JObj [("v", JNum "3" (mkfi true true true))]%string) = Err e).
+Proof. vm_compute. repeat split; try reflexivity; eexists; reflexivity. Qed.
 
 (* a present value outside options= makes it fail (contrapositive: success => the value's text is an option).
    Domain (options_enforced_on): scalar and pointer-to-scalar fields of every kind; a Duration only when it is
@@ -115,24 +166,34 @@ Theorem c05_range_enforced : forall n fs m vs i f w d,
 Proof. exact struct_range_enforced. Qed.
 Print Assumptions c05_range_enforced.
 
-(* outside those domains the clause is FALSE of the code (replayed on Go): Duration, slice and map fields accept
-   values outside options= / range= *)
-Definition o_opt12 := mkopts false None ["1s"; "2s"]%string None false.
-Definition o_rng15 := mkopts false None [] (Some (mkrange (Some 1) true (Some 5) true)) false.
+(* outside those domains the clause is FALSE of the code (replayed on Go; KNOWN_FINDINGS classes
+   options_range_unenforced_{duration,slice_elem,map_elem,default}): Duration, slice and map fields and default=
+   values are accepted although they lie outside options= / range= -- and the property (agrees) rejects each *)
+Definition o_opt12 := mkopts false None ["1s"; "2s"]%string None false None.
+Definition o_rng15 := mkopts false None [] (Some (mkrange (Some 1) true (Some 5) true)) false None.
 Definition one_field (o : fopts) (t : ty) := Struct [mkfield "v" o false t].
 Theorem c05_options_range_unenforced :
   (* time.Duration `options=1s|2s` <- "3s" *)
-  unmarshal 6 (one_field o_opt12 (Prim KDur)) (JObj [("v", JStr "3s")]%string) = Ok (VStruct [VInt 3000000000]) /\
+  unmarshal 6 (one_field o_opt12 (Prim KDur)) (JObj [("v", JStr "3s" None)]%string) = Ok (VStruct [VInt 3000000000]) /\
   (* time.Duration `range=[1:5]` <- "7s" *)
-  unmarshal 6 (one_field o_rng15 (Prim KDur)) (JObj [("v", JStr "7s")]%string) = Ok (VStruct [VInt 7000000000]) /\
+  unmarshal 6 (one_field o_rng15 (Prim KDur)) (JObj [("v", JStr "7s" None)]%string) = Ok (VStruct [VInt 7000000000]) /\
   (* []string `options=1s|2s` <- ["c"] *)
-  unmarshal 6 (one_field o_opt12 (Slice (Prim KStr))) (JObj [("v", JArr [JStr "c"])]%string) = Ok (VStruct [VSlice [VStr "c"]]) /\
+  unmarshal 6 (one_field o_opt12 (Slice (Prim KStr))) (JObj [("v", JArr [JStr "c" None])]%string) = Ok (VStruct [VSlice [VStr "c"]]) /\
   (* []int `range=[1:5]` <- [7] *)
   unmarshal 6 (one_field o_rng15 (Slice (Prim (KInt W64)))) (JObj [("v", JArr [JNum "7" (mkfi true true true)])]%string)
     = Ok (VStruct [VSlice [VInt 7]]) /\
   (* map[string]int `range=[1:5]` <- {"k":7} *)
   unmarshal 6 (one_field o_rng15 (Map (Prim (KInt W64)))) (JObj [("v", JObj [("k", JNum "7" (mkfi true true true))])]%string)
-    = Ok (VStruct [VMap [("k"%string, VInt 7)]]).
+    = Ok (VStruct [VMap [("k"%string, VInt 7)]]) /\
+  (* int `default=7,range=[1:5]` <- {} *)
+  unmarshal 6 (one_field (mkopts false (Some "7"%string) [] (Some (mkrange (Some 1) true (Some 5) true)) false None) (Prim (KInt W64))) (JObj [])
+    = Ok (VStruct [VInt 7]) /\
+  agrees (one_field o_opt12 (Prim KDur)) (JObj [("v", JStr "3s" None)]%string) (VStruct [VInt 3000000000]) = false /\
+  agrees (one_field o_rng15 (Slice (Prim (KInt W64)))) (JObj [("v", JArr [JNum "7" (mkfi true true true)])]%string) (VStruct [VSlice [VInt 7]]) = false /\
+  agrees (one_field o_rng15 (Map (Prim (KInt W64)))) (JObj [("v", JObj [("k", JNum "7" (mkfi true true true))])]%string)
+         (VStruct [VMap [("k"%string, VInt 7)]]) = false /\
+  agrees (one_field (mkopts false (Some "7"%string) [] (Some (mkrange (Some 1) true (Some 5) true)) false None) (Prim (KInt W64))) (JObj [])
+         (VStruct [VInt 7]) = false.
 Proof. vm_compute. repeat split. Qed.
 Print Assumptions c05_options_range_unenforced.
 
@@ -147,7 +208,7 @@ Print Assumptions c05_json_yaml_agree.
 Theorem c05_yaml_null_refuted : exists t,
   unmarshal (fuel_of t) t (yaml_to_json (YMap [("v"%string, YNull)])) <> unmarshal (fuel_of t) t (JObj [("v"%string, JNull)]).
 Proof.
-  exists (Struct [mkfield "v" (mkopts true None [] None false) false (Ptr (Prim (KInt W64)))]). vm_compute. discriminate.
+  exists (Struct [mkfield "v" (mkopts true None [] None false None) false (Ptr (Prim (KInt W64)))]). vm_compute. discriminate.
 Qed.
 Print Assumptions c05_yaml_null_refuted.
 
@@ -209,13 +270,13 @@ Proof. vm_compute. repeat split. Qed.
 
 Definition ex_ty : ty := Struct [
   mkfield "i8" no_opts false (Prim (KInt W8));
-  mkfield "n" (mkopts false (Some "5"%string) [] (Some (mkrange (Some 1) true (Some 9) true)) false) false (Prim (KInt W64));
-  mkfield "p" (mkopts true None [] None false) false (Ptr (Prim KStr));
+  mkfield "n" (mkopts false (Some "5"%string) [] (Some (mkrange (Some 1) true (Some 9) true)) false None) false (Prim (KInt W64));
+  mkfield "p" (mkopts true None [] None false None) false (Ptr (Prim KStr));
   mkfield "s" no_opts false (Slice (Struct [mkfield "d" no_opts false (Prim KDur)]))].
 Definition fi0 := mkfi true true true.
 
 Example c05_ok_example :
-  unmarshal (fuel_of ex_ty) ex_ty (JObj [("i8", JNum "-128" fi0); ("s", JArr [JObj [("d", JStr "1m30s")]])]%string)
+  unmarshal (fuel_of ex_ty) ex_ty (JObj [("i8", JNum "-128" fi0); ("s", JArr [JObj [("d", JStr "1m30s" None)]])]%string)
   = Ok (VStruct [VInt (-128); VInt 5; VNilPtr; VSlice [VStruct [VInt 90000000000]]]).
 Proof. vm_compute. reflexivity. Qed.
 
@@ -229,6 +290,6 @@ Proof. vm_compute. repeat split; eexists; reflexivity. Qed.
 
 Example c05_wf_example : wf_ty ex_ty = true /\ wfx ex_ty = true. Proof. split; reflexivity. Qed.
 Example c05_same_content_example :
-  same_content (YMap [("a", YInt (-7)); ("b", YSeq [YBool true; YStr "x"])]%string)
-               (JObj [("a", JNum "-7" int_fi); ("b", JArr [JBool true; JStr "x"])]%string) = true.
+  same_content (YMap [("a", YInt (-7)); ("b", YSeq [YBool true; YStr "x" None])]%string)
+               (JObj [("a", JNum "-7" int_fi); ("b", JArr [JBool true; JStr "x" None])]%string) = true.
 Proof. vm_compute. reflexivity. Qed.
